@@ -253,6 +253,25 @@ def locate(toks, path):
             part, nth = m.group(1).strip(), int(m.group(2))
         kind, _, name = part.partition(" ")
         name = name.strip()
+        if kind.startswith("**"):
+            # nested item statement anywhere below (N15 hoist): `const NAME ... ;` / `static NAME ... ;`
+            kw = kind[2:]
+            hits = [k for k in range(lo, hi - 1) if toks[ci[k]].text == kw and toks[ci[k + 1]].text == name]
+            if len(hits) != 1:
+                raise ExtractError(f"nested item {part!r} found {len(hits)} times (of {path!r})")
+            k = hits[0]
+            d = 0
+            e = k
+            while e < hi:
+                t = toks[ci[e]]
+                if t.kind == "punct" and t.text in OPEN:
+                    d += 1
+                elif t.kind == "punct" and t.text in CLOSE:
+                    d -= 1
+                elif t.text == ";" and d == 0:
+                    break
+                e += 1
+            return {"kind": kw, "name": name, "start": k, "end": e + 1, "impl": None, "ci": ci}
         cands = [it for it in _items_in(toks, ci, lo, hi) if it[0] == kind and it[1] == name]
         if len(cands) < nth:
             raise ExtractError(f"item not found: {part!r} (of {path!r})")
@@ -417,6 +436,55 @@ def n3_pubfields(pieces, file, applied):
         pieces[i:i] = [Piece("pub", "rw", ln, rule="N3", tkind="ident"), Piece(" ", "rw", ln, rule="N3", tkind="ws")]
         n += 1
     applied.add("N3", file, pieces[0].line, f"{n} private field(s) made pub")
+
+
+def _bstr_bytes(lit):
+    """bytes of a Rust byte-string literal (supported escapes: backslash, quotes, n, r, t, 0, xNN)"""
+    assert lit.startswith('b"') and lit.endswith('"')
+    body = lit[2:-1]
+    out = []
+    i = 0
+    BSL = chr(92)
+    while i < len(body):
+        c = body[i]
+        if c == BSL:
+            n = body[i + 1]
+            if n == "x":
+                out.append(int(body[i + 2:i + 4], 16))
+                i += 4
+                continue
+            m = {"n": 10, "r": 13, "t": 9, "0": 0, BSL: 92, '"': 34, "'": 39}
+            if n not in m:
+                raise ExtractError(f"N19: unsupported escape {n!r} in {lit}")
+            out.append(m[n])
+            i += 2
+            continue
+        b = c.encode("utf-8")
+        if len(b) != 1:
+            raise ExtractError(f"N19: non-ASCII in byte string {lit}")
+        out.append(b[0])
+        i += 1
+    return out
+
+
+def n19_byte_strings(pieces, file, applied):
+    """b"abc" -> &[0x61u8, 0x62u8, 0x63u8] (same type &'static [u8; N], same bytes; Verus gives
+    byte-string literals no specification but knows array literals)"""
+    n = 0
+    idx = 0
+    while idx < len(pieces):
+        pc = pieces[idx]
+        if not pc.dead and pc.tkind == "str" and pc.text.startswith('b"'):
+            bs = _bstr_bytes(pc.text)
+            rep = "&[" + ", ".join(f"0x{b:02x}u8" for b in bs) + "]"
+            newp = [Piece(t.text, "rw", pc.line, rule="N19", tkind=t.kind) for t in lex(rep)]
+            pieces[idx:idx + 1] = newp
+            idx += len(newp)
+            n += 1
+            applied.add("N19", file, pc.line, f"{pc.text} -> array literal of the same {len(bs)} bytes")
+        else:
+            idx += 1
+    return n
 
 
 def n1_async(pieces, file, applied):
@@ -641,6 +709,105 @@ def n12_break_value(pieces, name, file, applied):
             pieces[i:i + 1] = [Piece(t.text, "rw", pc.line, rule=pc.rule, tkind=t.kind) for t in lex(pc.text)]
             break
     applied.add("N12", file, line, f"let {name} = loop {{ break E }} -> deferred initialisation, {len(edits)} break(s)")
+
+
+def _split_top(pieces, si, lo, hi):
+    """split code positions [lo,hi) at top-level commas (angle brackets counted); returns list of (a,b)"""
+    out = []
+    depth = 0
+    a = lo
+    for k in range(lo, hi):
+        t = pieces[si[k]]
+        if t.tkind == "punct":
+            if t.text in OPEN or t.text == "<":
+                depth += 1
+            elif t.text in CLOSE or t.text == ">":
+                depth -= 1
+            elif t.text == ">>":
+                depth -= 2
+            elif t.text == "->":
+                pass
+            elif t.text == "," and depth == 0:
+                out.append((a, k + 1))
+                a = k + 1
+    if a < hi:
+        out.append((a, hi))
+    return out
+
+
+def n5_monomorphise(pieces, mapping, file, applied):
+    """instantiate type parameters of a fn with the only implementors: drop them from the generic
+    list, drop where-predicates that mention them, substitute them elsewhere"""
+    si = sig(pieces)
+    fnk = next(k for k, i in enumerate(si) if pieces[i].text == "fn" and pieces[i].tkind == "ident")
+    line = pieces[si[fnk]].line
+    k = fnk + 2
+    if pieces[si[k]].text == "<":
+        depth = 0
+        j = k
+        while True:
+            t = pieces[si[j]].text
+            if t == "<":
+                depth += 1
+            elif t == ">":
+                depth -= 1
+                if depth == 0:
+                    break
+            elif t == ">>":
+                depth -= 2
+                if depth <= 0:
+                    break
+            j += 1
+        params = _split_top(pieces, si, k + 1, j)
+        keep = [(a, b) for (a, b) in params if pieces[si[a]].text not in mapping]
+        for (a, b) in params:
+            if pieces[si[a]].text in mapping:
+                kill(pieces, range(si[a], si[b - 1] + 1))
+        if not keep:
+            kill(pieces, [si[k], si[j]])
+        else:
+            # a kept last param may now end with a dangling comma: harmless in Rust
+            pass
+    # signature end
+    si = sig(pieces)
+    depth = 0
+    body = where = None
+    for k, i in enumerate(si):
+        t = pieces[i]
+        if t.tkind == "punct" and t.text in "([":
+            depth += 1
+        elif t.tkind == "punct" and t.text in ")]":
+            depth -= 1
+        elif depth == 0 and t.text == "where" and t.tkind == "ident" and where is None:
+            where = k
+        elif depth == 0 and t.text == "{" and t.tkind == "punct":
+            body = k
+            break
+    if where is not None:
+        preds = _split_top(pieces, si, where + 1, body)
+        left = 0
+        for (a, b) in preds:
+            if any(pieces[si[x]].text in mapping and pieces[si[x]].tkind == "ident" for x in range(a, b)):
+                kill(pieces, range(si[a], si[b - 1] + 1))
+            else:
+                left += 1
+        if left == 0:
+            pieces[si[where]].dead = True
+    # substitute
+    n = 0
+    for i, pc in enumerate(list(pieces)):
+        pass
+    idx = 0
+    while idx < len(pieces):
+        pc = pieces[idx]
+        if not pc.dead and pc.tkind == "ident" and pc.text in mapping and pc.kind in ("src", "rw"):
+            newp = [Piece(t.text, "rw", pc.line, rule="N5", tkind=t.kind) for t in lex(mapping[pc.text])]
+            pieces[idx:idx + 1] = newp
+            idx += len(newp)
+            n += 1
+        else:
+            idx += 1
+    applied.add("N5", file, line, "monomorphised: " + ", ".join(f"{k}={v}" for k, v in mapping.items()) + f" ({n} substitutions)")
 
 
 def n17_mut_self(pieces, file, applied):
@@ -891,6 +1058,15 @@ class Generator:
                         elif d == "pubfields":
                             opts["pubfields"] = True
                             cur = None
+                        elif d.startswith("n5 "):
+                            opts["n5"] = dict(x.split("=", 1) for x in d[3:].split())
+                            cur = None
+                        elif d == "n19":
+                            opts["n19"] = True
+                            cur = None
+                        elif d == "n8":
+                            opts["n8"] = True
+                            cur = None
                         elif d == "n17":
                             opts["n17"] = True
                             cur = None
@@ -971,8 +1147,12 @@ class Generator:
         if loc["kind"] == "fn":
             awaits = n1_async(pieces, file, self.applied)
             n2_logging(pieces, file, self.applied)
+        if opts.get("n19"):
+            n19_byte_strings(pieces, file, self.applied)
         for (rule, pat, rep, count) in opts["rewrites"]:
             apply_rewrite(pieces, rule, pat, rep, count, file, self.applied)
+        if opts.get("n5"):
+            n5_monomorphise(pieces, opts["n5"], file, self.applied)
         for nm in opts.get("n12", []):
             n12_break_value(pieces, nm, file, self.applied)
         if opts.get("n17"):
@@ -1097,12 +1277,25 @@ class Generator:
                 self.applied.add("TRUSTED", file, first_line, f"body of {path} not verified; its contract is assumed")
                 # only the contract survives; indices shifted by one
                 inj = {(k[0] + 1, k[1]): v for k, v in inj.items() if k == (body_open, "before")}
+        elif loc["kind"] == "static" and opts.get("n8"):
+            # N8: `static X: T = INIT;` -> `exec static X: T <ensures> { INIT }`
+            si = sig(pieces)
+            eq = next(k for k, i in enumerate(si) if pieces[i].text == "=" and pieces[i].tkind == "punct")
+            semi = len(si) - 1
+            if pieces[si[semi]].text != ";":
+                raise ExtractError(f"{iid}: N8: static does not end in `;`")
+            st = next(k for k, i in enumerate(si) if pieces[i].text == "static")
+            pieces[si[st]] = Piece("exec static", "rw", pieces[si[st]].line, rule="N8", tkind="rwtext")
+            pieces[si[eq]] = Piece("{", "rw", pieces[si[eq]].line, rule="N8", tkind="punct")
+            pieces[si[semi]] = Piece("}", "rw", pieces[si[semi]].line, rule="N8", tkind="punct")
+            for bk in blocks:
+                if bk.where != "spec":
+                    raise ExtractError(f"{iid}: only a spec block is supported on a static")
+                add_inj(si[eq], "before", bk.lines, f"{iid}.spec")
+            self.applied.add("N8", file, first_line, "static -> exec static with ensures; initialiser tokens unchanged")
         else:
             for bk in blocks:
-                if bk.where == "spec" and loc["kind"] == "static":
-                    pass
-                else:
-                    raise ExtractError(f"{iid}: blocks are only supported on fn items (got {bk.where} on {loc['kind']})")
+                raise ExtractError(f"{iid}: blocks are only supported on fn items (got {bk.where} on {loc['kind']})")
 
         if opts.get("rename"):
             # rename the item (used when two impls define the same method name and are emitted inherent)
@@ -1115,6 +1308,8 @@ class Generator:
 
         # ---- render
         gen_start = len(self.out) + 1
+        if opts.get("prefix"):
+            self.out.append((opts["prefix"] + f" /*@{iid}.attr*/", {"k": "inj", "clause": f"{iid}.attr", "tags": list(tags), "item": iid}))
         buf = ""
         cur_line_info = {"k": "src", "file": file, "line": first_line}
 
